@@ -265,15 +265,25 @@ def shutdown_chain_walks(rng, n):
 TEXTS = ["a\n", "b", "", "c\nd", "\n", "e\n\nf", "gh\n"]
 
 
+def thread_text(t, s):
+    """The same shapes for every thread, but in the thread's own letters, so that the
+    oracle's interleaving search cannot re-parse one thread's text as another's."""
+    if t == 0:
+        return s
+    if t == 1:
+        return s.upper()
+    return "".join(chr(ord(c) + 8 * (t - 1)) if "a" <= c <= "h" else c for c in s)
+
+
 def rand_program(rng, nthreads, nops):
     progs = []
-    for _ in range(nthreads):
+    for t in range(nthreads):
         p = []
         for _ in range(rng.randint(1, nops)):
             if rng.random() < 0.15:
                 p.append(("f",))
             else:
-                p.append(("w", rng.choice(TEXTS)))
+                p.append(("w", thread_text(t, rng.choice(TEXTS))))
         progs.append(p)
     return progs
 
@@ -380,7 +390,8 @@ def replay_schedule(ctx, labels, complete=True):
         raise
     info = {"events": list(rig.events), "events_at_schedule_end": before, "lost": list(rig.lost),
             "crashed": list(rig.crashed), "problems": problems, "status": status,
-            "leaked": rig.leaked_threads(), "flags": sorted(rig.flags), "host_error": repr(rig.host.error) if rig.host.error else None}
+            "leaked": rig.leaked_threads(), "flags": sorted(rig.flags),
+            "raced": list(rig.raced), "handed": list(rig.handed), "host_error": repr(rig.host.error) if rig.host.error else None}
     result = [obs, fin] if status is None else [obs, fin, S(status)]
     return result, info
 
@@ -413,9 +424,67 @@ def interleaving_ok(out, per_thread):
     return False
 
 
-def cause_of(ctx, labels, fam=None, flags=()):
+FLUSH_THREAD = "patch-stdout-flush-thread"
+
+
+def unbracketed_events(events):
+    """The write events the bracket clause of the oracle objects to."""
+    bad = []
+    erased = False
+    for e in events:
+        if e[0] == "e":
+            erased = True
+        elif e[0] == "r":
+            erased = False
+        elif e[4] or (e[2] and not (e[3] and erased)):
+            bad.append(e)
+    return bad
+
+
+def _remove_multiset(seq, rem):
+    from collections import Counter
+    c = Counter(rem)
+    out = []
+    for x in seq:
+        if c[x] > 0:
+            c[x] -= 1
+        else:
+            out.append(x)
+    return out
+
+
+def race_explains(fam, events, per_thread, lost, raced, handed, order_ok):
+    """Is THIS failure the known start/stop race (F3a/b/c), not merely a failure in a
+    schedule that contains such a race?
+      unbracketed-write: every offending write was made by the flush thread itself (it chose
+                         'no application' and wrote directly - the start race);
+      lost:              the missing characters are exactly the batches that sat on a loop
+                         when that loop was closed;
+      reorder:           the terminal got exactly the batches that were handed over, the
+                         hand-over order is a correct interleaving, and the only batches out of
+                         hand-over order are the ones handed to (or left on) a loop nobody ran."""
+    from collections import Counter
+    if fam == "unbracketed-write":
+        ev = unbracketed_events(events)
+        return bool(ev) and all(e[5] == FLUSH_THREAD for e in ev)
+    out_texts = [e[1] for e in events if e[0] == "w"]
+    if fam == "lost":
+        want = Counter("".join(t for p in per_thread for t in p))
+        got = Counter("".join(out_texts))
+        return bool(lost) and not (got - want) and (want - got) == Counter("".join(lost))
+    if fam in ("reorder", "split"):
+        if not raced or Counter(out_texts) != Counter(handed):
+            return False
+        if _remove_multiset(out_texts, raced) != _remove_multiset(handed, raced):
+            return False
+        return order_ok("".join(handed))
+    return False
+
+
+def cause_of(ctx, labels, fam=None, flags=(), explained=True):
     """Which circumstance of the schedule explains a failure of family `fam`
-    (used only to tell known findings apart; computed from the schedule)."""
+    (used only to tell known findings apart).  `lifecycle-race` is given only
+    when the schedule contains a start/stop race AND `explained` (race_explains)."""
     chosen = False
     ext_open = 0
     race = "stop-with-pending-callback" in flags
@@ -437,7 +506,7 @@ def cause_of(ctx, labels, fam=None, flags=()):
     stopped = sum(1 for l in labels if l[0] == 10) >= sum(1 for l in labels if l[0] == 8)
     if chosen and started and not stopped:
         race = True     # finishing the run stops the application before the deliver
-    if race:
+    if race and explained:
         return "lifecycle-race"
     if exit_in_term:
         return "exit-while-in-terminal"
@@ -591,39 +660,39 @@ def _stress(chk, scenario, nthreads, nwrites, seed):
         errors.append("stress rig: %r" % (e,))
         problems = []
     bad = []
+    attrib = {}
     if not errors:
-        # tokens make the parse unique: check per-thread order, wholeness, exactly-once
-        import re
         out = rig.out_text()
-        bad = [b for b in oracle_trace(rig.events, [[]], False) if b[0] == "unbracketed-write"]
-        toks = re.findall(r"<(\d+):(\d+)>", out)
-        nxt = [0] * nthreads
-        for (t, i) in toks:
-            t, i = int(t), int(i)
-            if i != nxt[t]:
-                bad.append(("reorder" if i > nxt[t] or i < nxt[t] else "duplicated",
-                            "thread %d: token %d seen where %d was due" % (t, i, nxt[t])))
-                break
-            nxt[t] = i + 1
-        want = "".join(t for p in per for t in p)
-        if sorted(out) != sorted(want):
-            bad.append(("lost" if len(out) < len(want) else "duplicated",
-                        "terminal has %d characters, %d were written" % (len(out), len(want))))
-        elif not bad:
-            # wholeness: removing every whole write text of a thread in order must consume the output
-            pos = 0
-            idx = [0] * nthreads
-            while pos < len(out):
-                for t in range(nthreads):
-                    if idx[t] < len(per[t]) and out.startswith(per[t][idx[t]], pos):
-                        pos += len(per[t][idx[t]])
-                        idx[t] += 1
-                        break
-                else:
-                    bad.append(("reorder", "a write call's text is split at offset %d: %r" % (pos, out[max(0, pos - 20):pos + 30])))
-                    break
+        unb = unbracketed_events(rig.events)
+        if unb:
+            e = unb[0]
+            bad.append(("unbracketed-write", "text %r written while the application runs, outside erase..redraw "
+                        "(_running_in_terminal=%s, in render=%s, thread %s); %d such write(s)" % (e[1][:60], e[3], e[4], e[5], len(unb))))
+        bad += token_analysis(out, per, nthreads)
+        if scenario == "lifecycle":
+            # which of these is the known start/stop race and nothing else (see race_explains).
+            # Free-running, "handed to a loop that then stopped" cannot be seen at hand-over time;
+            # its signature is: a batch handed to the loop is overtaken by a later batch that the
+            # flush thread wrote directly (it only does that after it saw the application gone).
+            wev = [e for e in rig.events if e[0] == "w"]
+            pos = {}
+            for k, e in enumerate(wev):
+                pos.setdefault(e[1], k)
+            hidx = {}
+            for k, t in enumerate(rig.handed):
+                hidx.setdefault(t, k)
+            direct_pos = sorted((pos[e[1]], hidx.get(e[1], -1)) for e in wev if e[5] == FLUSH_THREAD and e[1] in hidx)
+            overtaken = []
+            for k, t in enumerate(rig.handed):
+                if k < len(rig.handed_via_loop) and rig.handed_via_loop[k] and t in pos:
+                    if any(p < pos[t] and h > k for p, h in direct_pos):
+                        overtaken.append(t)
+            for fam in set(f for f, _ in bad):
+                if race_explains(fam, rig.events, per, rig.lost, rig.raced + overtaken, rig.handed,
+                                 lambda text: not token_analysis(text, per, nthreads)):
+                    attrib[fam] = {"unbracketed-write": "-start-race", "reorder": "-stop-race", "split": "-stop-race"}.get(fam, "")
     for p in problems:
-        bad.append(("lost", "finishing the run: " + p))
+        bad.append(("shutdown-problem", "finishing the run: " + p))
     if rig.crashed:
         bad.append(("flush-thread-died", repr(rig.crashed[:2])))
     for e in errors:
@@ -632,7 +701,36 @@ def _stress(chk, scenario, nthreads, nwrites, seed):
         bad.append(("unlocked-buffer-access",
                     "_buffer touched by a thread that does not hold _lock (a step the model does not have): %r" % (rig.unlocked[:3],)))
     return bad, {"scenario": scenario, "threads": nthreads, "writes": nwrites, "seed": seed,
-                 "leaked": rig.leaked_threads(), "flags": sorted(rig.flags), "chars": sum(len(t) for p in per for t in p)}
+                 "leaked": rig.leaked_threads(), "flags": sorted(rig.flags), "chars": sum(len(t) for p in per for t in p),
+                 "attrib": attrib}
+
+
+def token_analysis(out, per, nthreads):
+    """Tokens <t:i> make the parse unique.  Three independent clauses: every thread's
+    tokens 0,1,2.. in order (reorder / duplicated), the character multiset (lost /
+    duplicated), and every write call's text in one piece at its token (split)."""
+    import re
+    bad = []
+    nxt = [0] * nthreads
+    for m in re.finditer(r"<(\d+):(\d+)>", out):
+        t, i = int(m.group(1)), int(m.group(2))
+        if t >= nthreads:
+            continue
+        if i != nxt[t]:
+            bad.append(("reorder", "thread %d: token %d seen where %d was due" % (t, i, nxt[t])))
+            break
+        nxt[t] = i + 1
+    want = "".join(t for p in per for t in p)
+    if sorted(out) != sorted(want):
+        bad.append(("lost" if len(out) < len(want) else "duplicated",
+                    "terminal has %d characters, %d were written" % (len(out), len(want))))
+    for m in re.finditer(r"<(\d+):(\d+)>", out):
+        t, i = int(m.group(1)), int(m.group(2))
+        if t < nthreads and i < len(per[t]) and not out.startswith(per[t][i], m.start()):
+            bad.append(("split", "the text of write call %r is split by other text: %r" % (
+                per[t][i], out[max(0, m.start() - 20):m.start() + 40])))
+            break
+    return bad
 
 
 def patch_exit_probe(seed, rounds):
@@ -746,7 +844,7 @@ def render_fault_probe():
         bad.append(("harness", "render-fault probe: %r" % (e,)))
     problems = rig.finish(complete=True)
     for p in problems:
-        bad.append(("lost", "render-fault probe, finishing: " + p))
+        bad.append(("shutdown-problem", "render-fault probe, finishing: " + p))
     if not bad and rig.out_text() != "first\nsecond\nthird\n":
         bad.append(("reorder", "render-fault probe: terminal text %r" % (rig.out_text(),)))
     return bad, {"scenario": "render-fault", "leaked": rig.leaked_threads()}
@@ -762,13 +860,15 @@ def judge_schedule(chk, ctx, labels, origin, info):
     if any(n == "patch-stdout-flush-thread" for n, _ in info["crashed"]):
         bad.append(("flush-thread-died", "the flush thread died: %s" % (info["crashed"][0][1],)))
     for p in info["problems"]:
-        bad.append(("lost", "finishing the run: " + p))
+        bad.append(("shutdown-problem", "finishing the run: " + p))
     seen = set()
     for fam, msg in bad:
         if fam in seen:
             continue
         seen.add(fam)
-        cause = cause_of(ctx, labels, fam, info.get("flags", ()))
+        expl = race_explains(fam, info["events"], per, info["lost"], info.get("raced", []), info.get("handed", []),
+                             lambda text: interleaving_ok(text, per))
+        cause = cause_of(ctx, labels, fam, info.get("flags", ()), explained=expl)
         chk.violation("oracle", "%s [%s; proxy in %s session] schedule: %s" % (
             msg, origin, ("the default" if ctx & 1 else "a create_app_session()") + (", output answering CPR" if ctx & 2 else ""), show(labels)),
             {"family": fam, "cause": cause},
@@ -856,7 +956,7 @@ def main(tier):
                 seen.add(fam)
                 chk.violation("tie" if fam == "unlocked-buffer-access" else "oracle",
                               "free-running %s run (%d threads x %d writes): %s" % (scenario, nth, nwr, msg),
-                              {"family": fam, "cause": "stress-" + scenario},
+                              {"family": fam, "cause": "stress-" + scenario + meta.get("attrib", {}).get(fam, "")},
                               {"stress": meta, "clause": msg}, no_input=(fam == "unlocked-buffer-access"))
 
     if leaked:
@@ -891,7 +991,9 @@ def main(tier):
         "one label = one atomic step: the locked body of write/flush, one queue operation of the flush thread, one event-loop callback; preemption inside these (GIL/bytecode level), queue.Queue's own locking and asyncio's FIFO ready queue are assumed, exercised only by the free-running stress",
         "time.sleep(sleep_between_writes) only delays the flush thread (no-op in the model); gated replays use 0",
         "set_is_running/set_loop/set_app of run_async are one step (AppStart), their exits one step (AppStop)",
-        "positive theorems need: no application start/exit/stop/loop-close during the run (refuted without: C20_*_refuted), and the proxy created in the AppSession that callbacks scheduled from a fresh thread see (the default one)",
+        "positive in-order/bracket theorems need: no application start/stop/loop-close during the run (AppExit is allowed; refuted without: C20_bracket_start_refuted, C20_stop_race_refuted); the session flag c they quantify over is read by no model step (that the callback sees the proxy's own session is built into LLoopStep) - tied by the other-session replays only",
+        "CPR requests are keyed on _is_running in the model, on is_done/input_queue in the code; the window between exit() and _is_running=False is not replayed",
+        "the 'lost' list compared with the model is the rig's bookkeeping of batches it held when a loop was closed; C20_flush_thread_never_dies is a model sanity lemma (step has no crash transition)",
         "Render is replayed as Application._redraw() in the loop, not through invalidate()'s postponing scheduler",
         "text written after close() is outside the property (never delivered; the model keeps it in the queue)"]
     return chk.finish()
